@@ -26,6 +26,36 @@ theorem C01_stream (t : Ty) (hwf : t.wf = true) (vs : List Val) (h : HChan) (bs 
   repM_encAll (f := dec t) (fun a h b h' hab => encode_mono t a h b h' hab) vs h bs h'
     (fun a ha _ _ _ hab => (rt t hwf).decInto (dflt t) (hv a ha) hab) he s rest hc hb hf hr
 
+/-- **The encoding is a prefix code.** If the encoding of one well-typed value is an initial
+segment of the encoding of another (same type, same handle table on the reading side), the two
+encodings are the same bytes and the two values are equal: no valid message is a strict prefix
+of another, and no two distinct values share an encoding. -/
+theorem C01_prefix_free (t : Ty) (hwf : t.wf = true) (v1 v2 : Val) (h : HChan) (bs1 rest : Bytes)
+    (h1 h2 : HChan) (hv1 : valid t v1 = true) (hv2 : valid t v2 = true)
+    (he1 : encode t v1 h = .ok (bs1, h1)) (he2 : encode t v2 h = .ok (bs1 ++ rest, h2))
+    (tbl : List Int) (hr1 : Resolves tbl h1.pushed) (hr2 : Resolves tbl h2.pushed) :
+    rest = [] ∧ v1 = v2 := by
+  let s : Src := { bytes := bs1 ++ rest, handles := tbl }
+  have d1 := C01_roundtrip t hwf v1 h bs1 h1 (dflt t) hv1 he1 s rest rfl rfl (by simp [s, framesOk]) hr1
+  have d2 := C01_roundtrip t hwf v2 h (bs1 ++ rest) h2 (dflt t) hv2 he2 s [] rfl (by simp [s]) (by simp [s, framesOk]) hr2
+  rw [d1] at d2
+  have hv : v1 = v2 := by
+    have := congrArg (fun r => r.1) d2
+    simpa using this
+  have hb : (s.adv bs1.length).bytes = (s.adv (bs1 ++ rest).length).bytes := by
+    have := congrArg (fun r => r.2.bytes) d2
+    simpa using this
+  refine ⟨?_, hv⟩
+  simpa [s, Src.adv] using hb
+
+/-- **Injectivity** (the case `rest = []`): equal bytes, equal values. -/
+theorem C01_encode_injective (t : Ty) (hwf : t.wf = true) (v1 v2 : Val) (h : HChan) (bs : Bytes)
+    (h1 h2 : HChan) (hv1 : valid t v1 = true) (hv2 : valid t v2 = true)
+    (he1 : encode t v1 h = .ok (bs, h1)) (he2 : encode t v2 h = .ok (bs, h2))
+    (tbl : List Int) (hr1 : Resolves tbl h1.pushed) (hr2 : Resolves tbl h2.pushed) :
+    v1 = v2 :=
+  (C01_prefix_free t hwf v1 v2 h bs [] h1 h2 hv1 hv2 he1 (by simpa using he2) tbl hr1 hr2).2
+
 /-- Integers of every kind (the base case, stated on its own). -/
 theorem C01_int_roundtrip (k : IntKind) (i : Int) (s : Src) (rest : Bytes)
     (hr : k.inRange i = true) (hc : s.fault = .none) (hb : s.bytes = encInt k i ++ rest)
